@@ -85,6 +85,16 @@ impl SimTimer {
         let (id, _label) = w.new_op("timer", Some(delay_to_deadline.saturating_add(late)));
         w.rec(Kind::TimerArm { id, arg, deadline_vt: deadline });
         w.last_timer_id = id;
+        // a timer asked to wait for a deadline that has already been reached may hand out a future
+        // that is ready at its first poll
+        let imm = w.profile.timer_immediate_permille;
+        if delay_to_deadline == 0 && late == 0 && !w.is_probe && w.draws.chance(&format!("{label}/immediate"), imm) {
+            w.stat("time.timer_ready_at_first_poll");
+            if let Some(op) = w.ops.get_mut(&id) {
+                op.fired = true;
+            }
+            w.rec(Kind::TimerFire { id });
+        }
         drop(w);
         Pend::new(&self.w, id, ()).boxed()
     }
@@ -486,6 +496,10 @@ pub struct SimAppSet {
 
 impl AppSet for SimAppSet {
     fn get_apps(&self) -> Vec<App> {
+        if let Some(w) = &self.w {
+            let _g = EnvGuard::enter();
+            lock(w).rec(Kind::AppSetRead);
+        }
         self.apps.clone()
     }
     fn iter_mut_apps(&mut self) -> Box<dyn Iterator<Item = &mut App> + '_> {
@@ -773,10 +787,19 @@ impl Installer for SimInstaller {
                     let _g = EnvGuard::enter();
                     let mut w = lock(&shared);
                     w.rec(Kind::Installer(InstallerRec::ProgressReturned { value: value.to_bits() }));
-                    let (id, _l) = w.new_op("install.step", None);
-                    id
+                    // between two reports the installer may have nothing to wait for
+                    let rate = w.profile.installer.step_nowait_permille;
+                    if w.draws.chance(&format!("{label}/progress#{i}/nowait"), rate) {
+                        w.stat("embedder.installer_step_without_waiting");
+                        None
+                    } else {
+                        let (id, _l) = w.new_op("install.step", None);
+                        Some(id)
+                    }
                 };
-                Pend::new(&shared, step, ()).await;
+                if let Some(step) = step {
+                    Pend::new(&shared, step, ()).await;
+                }
             }
             let _g = EnvGuard::enter();
             let mut w = lock(&shared);
